@@ -1,11 +1,11 @@
 //! Thin wrappers around the compiler under test: every call goes through the public API
 //! (`Compiler`, `CompileResult`, `CompilerError`).
 use rasn_compiler::prelude::*;
-use serde::Serialize;
+use serde::{Deserialize, Serialize};
 use std::cell::RefCell;
 use std::panic::{catch_unwind, AssertUnwindSafe};
 
-#[derive(Clone, Debug, PartialEq, Eq, Hash, Serialize)]
+#[derive(Clone, Debug, PartialEq, Eq, Hash, Serialize, Deserialize)]
 pub struct Cfg {
     pub opaque_open_types: bool,
     pub default_wildcard_imports: bool,
